@@ -2,6 +2,7 @@ package checks
 
 import (
 	"bytes"
+	"encoding/json"
 	"fmt"
 	"sort"
 	"time"
@@ -583,6 +584,16 @@ func C12(tier string) int {
 		}
 		c.Close()
 	}
+	// Generations that share a participant and reach their commit step at the same time.
+	concBudget := 120 * time.Second
+	if tier == "thorough" {
+		concBudget = 10 * time.Minute
+	}
+	conc, err := c12Concurrent(run, time.Now().Add(concBudget))
+	if err != nil {
+		run.HarnessErr = err
+		return run.Finish()
+	}
 	vacuous := []string{}
 	for n := 2; n <= maxN; n++ {
 		for t := n/2 + 1; t <= n; t++ {
@@ -606,6 +617,7 @@ func C12(tier string) int {
 		"generations_with_own_passphrases":  ownPass,
 		"generations_over_the_real_grpc_transport": overNet,
 		"vacuous_cells": vacuous,
+		"commits_of_different_generations_at_the_same_time": conc,
 	}
 	run.Assumptions = []string{"the grid, the tampering and the ordering cases run on the in-memory cluster (messages marshalled and handed to the real receiver handlers); services/sender/grpc and TLS between peers are exercised by the 20 generations over the real transport only", "the BLS library is correct"}
 	return run.Finish()
@@ -613,4 +625,20 @@ func C12(tier string) int {
 
 func init() {
 	Registry["C12"] = C12
+	Replayers["C12"] = func(raw json.RawMessage) int {
+		var rp struct {
+			Concurrent *c12ConcScenario `json:"concurrent"`
+			Choices    []int            `json:"choices"`
+			PerG       bool             `json:"goroutine_mode"`
+		}
+		if err := json.Unmarshal(raw, &rp); err != nil {
+			fmt.Println(err)
+			return 2
+		}
+		if rp.Concurrent != nil {
+			return c12ReplayConcurrent(*rp.Concurrent, rp.Choices, rp.PerG)
+		}
+		// A cell of the sequential grid: re-found by re-running the check.
+		return C12("quick")
+	}
 }
